@@ -68,10 +68,24 @@ type change struct {
 	Faults []proxyFaults `json:"faults"` // one per proxy
 }
 
+// proxyDelay is how long a model proxy sits on a request of each phase before
+// it handles it (ms), so that fast failures and slow successes interleave.
+type proxyDelay struct {
+	Prepare int `json:"prepare"`
+	Commit  int `json:"commit"`
+	Delete  int `json:"delete"`
+}
+
 type exchCase struct {
 	Proxies  int      `json:"proxies"`  // 1..3 registered proxies
 	Existing []bool   `json:"existing"` // per namespace: does it exist (version 1 everywhere) before the changes
-	Changes  []change `json:"changes"`  // 1, or 2 on different namespaces issued concurrently
+	// per namespace, if it exists: true = the stored previous configuration is plaintext
+	// (is_encrypt=false, written directly); false = it was stored by the control plane
+	// itself, i.e. is_encrypt=true with AES/base64 credentials
+	Plain   []bool   `json:"plain,omitempty"`
+	Changes []change `json:"changes"` // 1, or 2 on different namespaces issued concurrently
+	// the exchange is run once per delay assignment (one proxyDelay per proxy); empty = one run without delays
+	Delays [][]proxyDelay `json:"delays,omitempty"`
 }
 
 func genFault(t *rapid.T, label string, maxCount int) fault {
@@ -89,6 +103,7 @@ func genCase(t *rapid.T) exchCase {
 	c := exchCase{Proxies: rapid.IntRange(1, 3).Draw(t, "proxies")}
 	for range nsNames {
 		c.Existing = append(c.Existing, rapid.IntRange(0, 2).Draw(t, "existing") > 0)
+		c.Plain = append(c.Plain, rapid.Bool().Draw(t, "plain"))
 	}
 	n := 1
 	if rapid.IntRange(0, 3).Draw(t, "concurrent") == 0 {
@@ -118,6 +133,16 @@ func genCase(t *rapid.T) exchCase {
 		}
 		c.Changes = append(c.Changes, ch)
 	}
+	if rapid.Bool().Draw(t, "delayed") {
+		ms := []int{0, 0, 0, 20, 20, 80}
+		for a, n := 0, rapid.IntRange(1, 2).Draw(t, "assignments"); a < n; a++ {
+			var d []proxyDelay
+			for p := 0; p < c.Proxies; p++ {
+				d = append(d, proxyDelay{Prepare: rapid.SampledFrom(ms).Draw(t, "dp"), Commit: rapid.SampledFrom(ms).Draw(t, "dc"), Delete: rapid.SampledFrom(ms).Draw(t, "dd")})
+			}
+			c.Delays = append(c.Delays, d)
+		}
+	}
 	return c
 }
 
@@ -129,13 +154,15 @@ type modelProxy struct {
 	etcd     *fakeetcd.Server
 	ln       net.Listener
 	srv      *http.Server
-	active   map[string]int // namespace -> version
-	prepared map[string]int
+	active   map[string]string // namespace -> canonical decrypted configuration (see canon)
+	prepared map[string]string
+	delay    proxyDelay
 	faults   map[string]*proxyFaults // namespace -> remaining faults
 	events   []string
 	// what this proxy did during the exchange under test
-	commitsApplied map[string]int
-	deletesApplied map[string]int
+	preparesApplied map[string]int
+	commitsApplied  map[string]int
+	deletesApplied  map[string]int
 	faultsFired    map[string]int // "commit/fail", "prepare/lost", ...
 }
 
@@ -144,8 +171,8 @@ func newModelProxy(id int, etcd *fakeetcd.Server) (*modelProxy, error) {
 	if err != nil {
 		return nil, err
 	}
-	p := &modelProxy{id: id, etcd: etcd, ln: ln, active: map[string]int{}, prepared: map[string]int{},
-		faults: map[string]*proxyFaults{}, commitsApplied: map[string]int{}, deletesApplied: map[string]int{}, faultsFired: map[string]int{}}
+	p := &modelProxy{id: id, etcd: etcd, ln: ln, active: map[string]string{}, prepared: map[string]string{},
+		faults: map[string]*proxyFaults{}, preparesApplied: map[string]int{}, commitsApplied: map[string]int{}, deletesApplied: map[string]int{}, faultsFired: map[string]int{}}
 	p.srv = &http.Server{Handler: http.HandlerFunc(p.serve)}
 	go p.srv.Serve(ln)
 	return p, nil
@@ -158,31 +185,69 @@ func (p *modelProxy) port() string {
 
 func (p *modelProxy) resetCounters() {
 	p.mu.Lock()
-	p.commitsApplied, p.deletesApplied, p.faultsFired = map[string]int{}, map[string]int{}, map[string]int{}
+	p.preparesApplied, p.commitsApplied, p.deletesApplied, p.faultsFired = map[string]int{}, map[string]int{}, map[string]int{}, map[string]int{}
 	p.mu.Unlock()
 }
 
 func (p *modelProxy) activeVersion(ns string) int {
 	p.mu.Lock()
 	defer p.mu.Unlock()
-	if v, ok := p.active[ns]; ok {
-		return v
-	}
-	return absent
+	return versionOf(ns, p.active[ns])
 }
 
-// storedVersion decodes what the store holds for a namespace (the version is
-// in a field that is not encrypted).
-func storedVersion(etcd *fakeetcd.Server, ns string) (int, error) {
-	raw, ok := etcd.Get("/" + cluster + "/namespace/" + ns)
-	if !ok {
-		return absent, nil
+// canon is the configuration a proxy works with, in a comparable form: the
+// JSON of the verified, DECRYPTED namespace with the at-rest flag cleared.
+func canon(cfg *models.Namespace) string {
+	c := *cfg
+	c.IsEncrypt = false
+	b, _ := json.Marshal(&c)
+	return string(b)
+}
+
+// expectedCanon is what a proxy must get when version v of ns is in force.
+func expectedCanon(ns string, v int) string {
+	cfg := nsenv.Config(ns, v)
+	if err := cfg.Verify(); err != nil {
+		panic("harness: nsenv.Config does not verify: " + err.Error())
 	}
-	var cfg models.Namespace
-	if err := json.Unmarshal([]byte(raw), &cfg); err != nil {
-		return absent, fmt.Errorf("stored configuration of %s is not JSON: %v", ns, err)
+	return canon(cfg)
+}
+
+const (
+	altered    = -2 // a configuration that is neither version 1 nor version 2 of the namespace (e.g. other credentials)
+	unloadable = -3 // the store holds something a proxy cannot load (Store.LoadNamespace fails)
+)
+
+func versionOf(ns, c string) int {
+	switch c {
+	case "":
+		return absent
+	case expectedCanon(ns, 1):
+		return 1
+	case expectedCanon(ns, 2):
+		return 2
 	}
-	return cfg.MaxSqlResultSize - nsenv.VersionBase, nil
+	return altered
+}
+
+// loadFromStore does what a proxy does in its prepare phase: the real
+// models.Store.LoadNamespace (verify + decrypt with the encrypt key) through the
+// real etcd client. "" = no such namespace.
+func loadFromStore(etcd *fakeetcd.Server, ns string) (string, error) {
+	client, err := models.NewClient(models.ConfigEtcd, etcd.Addr(), "", "", "/"+cluster)
+	if err != nil {
+		return "", fmt.Errorf("harness: etcd client: %v", err)
+	}
+	store := models.NewStore(client)
+	defer store.Close()
+	cfg, err := store.LoadNamespace(encryptKey, ns)
+	if err != nil {
+		if _, ok := etcd.Get("/" + cluster + "/namespace/" + ns); !ok {
+			return "", nil
+		}
+		return "", err
+	}
+	return canon(cfg), nil
 }
 
 func (p *modelProxy) serve(w http.ResponseWriter, r *http.Request) {
@@ -227,6 +292,14 @@ func (p *modelProxy) serve(w http.ResponseWriter, r *http.Request) {
 		return
 	}
 
+	if d := map[string]int{"prepare": p.delay.Prepare, "commit": p.delay.Commit, "delete": p.delay.Delete}[phase]; d > 0 {
+		time.Sleep(time.Duration(d) * time.Millisecond)
+	}
+	loaded, loadErr := "", error(nil)
+	if phase == "prepare" {
+		loaded, loadErr = loadFromStore(p.etcd, name) // outside the lock: it is an HTTP exchange
+	}
+
 	p.mu.Lock()
 	// which fault, if any, hits this request
 	kind := ""
@@ -247,11 +320,11 @@ func (p *modelProxy) serve(w http.ResponseWriter, r *http.Request) {
 	status, msg := http.StatusOK, "OK"
 	switch phase {
 	case "prepare":
-		v, err := storedVersion(p.etcd, name)
-		if err != nil || v == absent {
-			status, msg = 500, fmt.Sprintf("cannot load namespace %s from the store", name)
+		if loadErr != nil || loaded == "" {
+			status, msg = 500, fmt.Sprintf("cannot load namespace %s from the store: %v", name, loadErr)
 		} else {
-			p.prepared[name] = v
+			p.prepared[name] = loaded
+			p.preparesApplied[name]++
 		}
 	case "commit":
 		if v, ok := p.prepared[name]; ok {
@@ -279,7 +352,8 @@ func (p *modelProxy) serve(w http.ResponseWriter, r *http.Request) {
 // ---------------------------------------------------------------- the check
 
 type world struct {
-	etcd    *fakeetcd.Server
+	storeProblem string // why the last snapshot found the store unloadable
+	etcd         *fakeetcd.Server
 	proxies []*modelProxy
 	cfg     *models.CCConfig
 }
@@ -316,7 +390,12 @@ func newWorld(n int) (*world, error) {
 }
 
 func (w *world) snapshot(ns string) (store int, proxies []int, err error) {
-	store, err = storedVersion(w.etcd, ns)
+	var c string
+	if c, err = loadFromStore(w.etcd, ns); err != nil && !strings.HasPrefix(err.Error(), "harness:") {
+		store, w.storeProblem, err = unloadable, err.Error(), nil
+	} else {
+		store = versionOf(ns, c)
+	}
 	for _, p := range w.proxies {
 		proxies = append(proxies, p.activeVersion(ns))
 	}
@@ -324,8 +403,13 @@ func (w *world) snapshot(ns string) (store int, proxies []int, err error) {
 }
 
 func ver(v int) string {
-	if v == absent {
+	switch v {
+	case absent:
 		return "absent"
+	case altered:
+		return "ALTERED(neither v1 nor v2 as a proxy decodes it)"
+	case unloadable:
+		return "UNLOADABLE(Store.LoadNamespace fails)"
 	}
 	return fmt.Sprintf("v%d", v)
 }
@@ -347,7 +431,41 @@ func allEqual(vs []int, want int) bool {
 	return true
 }
 
+// checkCase runs the exchange once per delay assignment (fresh store and proxies
+// each time) and merges the outcomes: any violation wins, then any known finding.
 func checkCase(c exchCase) (o pbt.Outcome) {
+	runs := c.Delays
+	if len(runs) == 0 {
+		runs = [][]proxyDelay{nil}
+	}
+	if len(runs) > 3 {
+		return pbt.Outcome{Skip: "malformed case"}
+	}
+	for ri, d := range runs {
+		if d != nil && len(d) != c.Proxies {
+			return pbt.Outcome{Skip: "malformed case"}
+		}
+		r := runOnce(c, d)
+		if r.Skip != "" {
+			return r
+		}
+		o.Labels = append(o.Labels, r.Labels...)
+		o.NonTrivial = o.NonTrivial || r.NonTrivial
+		if r.Violation != "" {
+			o.Violation = fmt.Sprintf("[delay assignment %d: %s] %s", ri, mustJSON(d), r.Violation)
+			return
+		}
+		if r.Known != "" && o.Known == "" {
+			o.Known, o.KnownWhat = r.Known, r.KnownWhat
+		}
+		if d != nil {
+			o.Labels = append(o.Labels, "run_with_delays")
+		}
+	}
+	return
+}
+
+func runOnce(c exchCase, delays []proxyDelay) (o pbt.Outcome) {
 	if c.Proxies < 1 || c.Proxies > 3 || len(c.Existing) != len(nsNames) || len(c.Changes) < 1 || len(c.Changes) > 2 {
 		o.Skip = "malformed case"
 		return
@@ -382,6 +500,22 @@ func checkCase(c exchCase) (o pbt.Outcome) {
 		if !c.Existing[i] {
 			continue
 		}
+		if i < len(c.Plain) && c.Plain[i] {
+			// a plaintext configuration (is_encrypt=false) put there directly, in force on every proxy
+			cfg := nsenv.Config(ns, 1)
+			cfg.Verify()
+			w.etcd.Set("/"+cluster+"/namespace/"+ns, string(cfg.Encode()))
+			for _, p := range w.proxies {
+				p.active[ns] = expectedCanon(ns, 1)
+			}
+			if store, px, derr := w.snapshot(ns); derr != nil || store != 1 || !allEqual(px, 1) {
+				o.Skip = fmt.Sprintf("harness: plaintext setup is not read back as v1 (store %s, %v)", ver(store), derr)
+				return
+			}
+			o.Labels = append(o.Labels, "previous_stored_plaintext")
+			continue
+		}
+		o.Labels = append(o.Labels, "previous_stored_encrypted")
 		var serr error
 		if p := pbt.Catch(func() { serr = service.ModifyNamespace(nsenv.Config(ns, 1), w.cfg, cluster) }); p != "" {
 			o.Violation = "runtime panic in ModifyNamespace without faults: " + p
@@ -410,6 +544,9 @@ func checkCase(c exchCase) (o pbt.Outcome) {
 			pf := ch.Faults[pi]
 			p.mu.Lock()
 			p.faults[nsNames[ch.NS]] = &pf
+			if delays != nil {
+				p.delay = delays[pi]
+			}
 			p.mu.Unlock()
 		}
 	}
@@ -454,12 +591,16 @@ func checkCase(c exchCase) (o pbt.Outcome) {
 		fired := map[string]int{}
 		applied := make([]bool, len(w.proxies)) // proxy applied the commit / delete of this change
 		anyApplied := false
+		allPrepared := true // every proxy staged the new configuration during this exchange
 		for pi, p := range w.proxies {
 			p.mu.Lock()
 			for k, n := range p.faultsFired {
 				if strings.HasPrefix(k, ns+"|") {
 					fired[strings.TrimPrefix(k, ns+"|")] += n
 				}
+			}
+			if p.preparesApplied[ns] == 0 {
+				allPrepared = false
 			}
 			if ch.Op == "modify" {
 				applied[pi] = p.commitsApplied[ns] > 0
@@ -481,7 +622,7 @@ func checkCase(c exchCase) (o pbt.Outcome) {
 		}
 		describe := func() string {
 			return fmt.Sprintf("%s(%s) on %d proxies, faults %s (fired %v): returned %v; store %s, proxies %s; before: %s everywhere; proxy log: %s",
-				ch.Op, ns, c.Proxies, mustJSON(ch.Faults), firedKeys, res.err, ver(store), vers(px), ver(prev[i]), strings.Join(events, "; "))
+				ch.Op, ns, c.Proxies, mustJSON(ch.Faults), firedKeys, res.err, ver(store)+map[bool]string{true: " [" + w.storeProblem + "]", false: ""}[store == unloadable], vers(px), ver(prev[i]), strings.Join(events, "; "))
 		}
 		switch {
 		case res.panicked != "":
@@ -512,13 +653,15 @@ func checkCase(c exchCase) (o pbt.Outcome) {
 				}
 			}
 			switch {
-			case ch.Op == "modify" && store == prev[i] && exact && anyApplied:
-				// store rolled back, proxies that committed keep the new configuration
+			case ch.Op == "modify" && store == prev[i] && exact && anyApplied && allPrepared && fired["commit/fail"]+fired["commit/lost"] > 0:
+				// the commit phase was entered legitimately (every proxy had prepared), a commit
+				// failed or its reply was lost; store rolled back (and loadable, equal to the
+				// previous configuration as a proxy decodes it), committed proxies keep the new one
 				if o.Known == "" {
 					o.Known, o.KnownWhat = "C32-F1", describe()
 				}
 				o.Labels = append(o.Labels, "known_F1")
-			case ch.Op == "delete" && prev[i] != absent && store == absent && exact:
+			case ch.Op == "delete" && prev[i] != absent && store == absent && exact && fired["delete/fail"]+fired["delete/lost"] > 0:
 				// store entry deleted first and never restored; proxies reached before the failure lost the namespace
 				if o.Known == "" {
 					o.Known, o.KnownWhat = "C32-F2", describe()
@@ -541,7 +684,7 @@ func mustJSON(v interface{}) string {
 func TestC32Exchange(t *testing.T) {
 	var rec *pbt.Recorder
 	pbt.RunWith(t, pbt.Spec{ID: "C32", Sub: "exchange", Quick: 300, Thorough: 2000,
-		Rule: "1-3 registered model proxies, namespace new or existing (created through a fault-free ModifyNamespace that is itself checked), one ModifyNamespace / DelNamespace or two concurrent ones on different namespaces, per proxy and phase a fault from {none, HTTP 500 before applying, apply and drop the connection} for 1-4 prepare requests / 1-2 commit or delete requests; non-trivial = a commit or delete fault fired or a reply was lost",
+		Rule: "1-3 registered model proxies, namespace new or existing (half stored encrypted by a fault-free ModifyNamespace that is itself checked, half stored as plaintext is_encrypt=false); half of the cases run 1-2 times with drawn per-proxy per-phase delays of 0/20/80 ms; store and proxies are compared as the decrypted configuration a proxy loads (models.Store.LoadNamespace with the key), not a version field; one ModifyNamespace / DelNamespace or two concurrent ones on different namespaces, per proxy and phase a fault from {none, HTTP 500 before applying, apply and drop the connection} for 1-4 prepare requests / 1-2 commit or delete requests; non-trivial = a commit or delete fault fired or a reply was lost",
 		Floor: 0.4}, genCase, func(c exchCase, r *pbt.Recorder) pbt.Outcome { rec = r; return checkCase(c) })
 	if rec != nil {
 		skipped := 0
